@@ -95,6 +95,13 @@ pub struct ConfigState {
     pub tcp_fronts: HashMap<ClusterId, Vec<TcpFrontend>>,
     pub udp_fronts: HashMap<ClusterId, Vec<UdpFrontend>>,
     pub certificates: HashMap<SocketAddr, HashMap<Fingerprint, CertificateAndKey>>,
+    /// The expiration overrides given with the certificates (`expired_at` of
+    /// AddCertificate, `new_expired_at` of ReplaceCertificate), by address and
+    /// fingerprint; only certificates that came with one have an entry. The
+    /// workers rank the certificates of a name by expiration, override
+    /// included, so it is part of the configuration to save and replay.
+    #[serde(default)]
+    pub certificate_expirations: HashMap<SocketAddr, HashMap<Fingerprint, i64>>,
     /// A census of requests that were received. Name of the request -> number of occurences
     pub request_counts: BTreeMap<String, i32>,
 }
@@ -1172,7 +1179,43 @@ impl ConfigState {
             before + 1,
             "add_certificate inserts exactly one fingerprint on the new path"
         );
+        self.set_certificate_expiration(add.address.into(), &fingerprint, add.expired_at);
         Ok(())
+    }
+
+    /// Record (`Some`) or forget (`None`) the expiration override of the
+    /// certificate stored under `(address, fingerprint)`. No empty bucket is
+    /// left behind.
+    fn set_certificate_expiration(
+        &mut self,
+        address: SocketAddr,
+        fingerprint: &Fingerprint,
+        expired_at: Option<i64>,
+    ) {
+        match expired_at {
+            Some(timestamp) => {
+                self.certificate_expirations
+                    .entry(address)
+                    .or_default()
+                    .insert(fingerprint.clone(), timestamp);
+            }
+            None => {
+                if let Some(overrides) = self.certificate_expirations.get_mut(&address) {
+                    overrides.remove(fingerprint);
+                    if overrides.is_empty() {
+                        self.certificate_expirations.remove(&address);
+                    }
+                }
+            }
+        }
+    }
+
+    /// The expiration override recorded for `(address, fingerprint)`, if any
+    fn certificate_expiration(&self, address: &SocketAddr, fingerprint: &Fingerprint) -> Option<i64> {
+        self.certificate_expirations
+            .get(address)
+            .and_then(|overrides| overrides.get(fingerprint))
+            .copied()
     }
 
     fn remove_certificate(&mut self, remove: &RemoveCertificate) -> Result<(), StateError> {
@@ -1188,6 +1231,7 @@ impl ConfigState {
                 "remove_certificate must evict the fingerprint when the address is known"
             );
         }
+        self.set_certificate_expiration(remove.address.into(), &fingerprint, None);
 
         Ok(())
     }
@@ -1261,6 +1305,10 @@ impl ConfigState {
                     .is_none_or(|certs| !certs.contains_key(&old_fingerprint)),
             "replace_certificate must evict the old fingerprint unless it equals the new one"
         );
+        // the override follows the certificate: gone with the old one, the
+        // new one comes with its own (or with none)
+        self.set_certificate_expiration(replace_address, &old_fingerprint, None);
+        self.set_certificate_expiration(replace_address, &new_fingerprint, replace.new_expired_at);
         Ok(())
     }
 
@@ -1548,12 +1596,12 @@ impl ConfigState {
         }
 
         for (front, certs) in self.certificates.iter() {
-            for certificate_and_key in certs.values() {
+            for (fingerprint, certificate_and_key) in certs.iter() {
                 v.push(
                     RequestType::AddCertificate(AddCertificate {
                         address: SocketAddress::from(*front),
                         certificate: certificate_and_key.clone(),
-                        expired_at: None,
+                        expired_at: self.certificate_expiration(front, fingerprint),
                     })
                     .into(),
                 );
@@ -1612,7 +1660,8 @@ impl ConfigState {
                     && replayed.http_fronts == expected.http_fronts
                     && replayed.https_fronts == expected.https_fronts
                     && replayed.tcp_fronts == expected.tcp_fronts
-                    && replayed.certificates == expected.certificates,
+                    && replayed.certificates == expected.certificates
+                    && replayed.certificate_expirations == expected.certificate_expirations,
                 "replaying generate_requests into a fresh state must reproduce self"
             );
         }
@@ -2207,19 +2256,25 @@ impl ConfigState {
         // A certificate is identified by (address, fingerprint) but its stored
         // value (names, chain, key, versions) is part of the configuration: a
         // changed value is a removal followed by an addition.
-        let my_certificates: HashSet<(SocketAddr, &Fingerprint, &CertificateAndKey)> =
+        // The expiration override is part of that value.
+        type KeyedCertificate<'a> = (SocketAddr, &'a Fingerprint, &'a CertificateAndKey, Option<i64>);
+        let my_certificates: HashSet<KeyedCertificate> =
             HashSet::from_iter(self.certificates.iter().flat_map(|(addr, certs)| {
-                certs.iter().map(move |(fingerprint, cert)| (*addr, fingerprint, cert))
+                certs.iter().map(move |(fingerprint, cert)| {
+                    (*addr, fingerprint, cert, self.certificate_expiration(addr, fingerprint))
+                })
             }));
-        let their_certificates: HashSet<(SocketAddr, &Fingerprint, &CertificateAndKey)> =
+        let their_certificates: HashSet<KeyedCertificate> =
             HashSet::from_iter(other.certificates.iter().flat_map(|(addr, certs)| {
-                certs.iter().map(move |(fingerprint, cert)| (*addr, fingerprint, cert))
+                certs.iter().map(move |(fingerprint, cert)| {
+                    (*addr, fingerprint, cert, other.certificate_expiration(addr, fingerprint))
+                })
             }));
 
         let removed_certificates = my_certificates.difference(&their_certificates);
         let added_certificates = their_certificates.difference(&my_certificates);
 
-        for &(address, fingerprint, _) in removed_certificates {
+        for &(address, fingerprint, _, _) in removed_certificates {
             v.push(
                 RequestType::RemoveCertificate(RemoveCertificate {
                     address: SocketAddress::from(address),
@@ -2229,12 +2284,12 @@ impl ConfigState {
             );
         }
 
-        for &(address, _, certificate_and_key) in added_certificates {
+        for &(address, _, certificate_and_key, expired_at) in added_certificates {
             v.push(
                 RequestType::AddCertificate(AddCertificate {
                     address: SocketAddress::from(address),
                     certificate: certificate_and_key.clone(),
-                    expired_at: None,
+                    expired_at,
                 })
                 .into(),
             );
@@ -2321,6 +2376,7 @@ impl ConfigState {
                     && replayed.https_fronts == other.https_fronts
                     && nonempty_tcp(&replayed.tcp_fronts) == nonempty_tcp(&other.tcp_fronts)
                     && nonempty_certs(&replayed.certificates) == nonempty_certs(&other.certificates)
+                    && replayed.certificate_expirations == other.certificate_expirations
                     && replayed.http_listeners == other.http_listeners
                     && replayed.https_listeners == other.https_listeners
                     && replayed.tcp_listeners == other.tcp_listeners
